@@ -36,6 +36,9 @@ func (P *Prog) fieldWrites() map[string]map[string]ssa.Instruction {
 			if !ok {
 				return
 			}
+			if !P.isNewHelper(enclosingTop(f)) && isParamCopy(f, fa.X) {
+				return // a field of the function's own copy of a by-value argument: a local variable, not state
+			}
 			base := deref(fa.X.Type())
 			named, ok := types.Unalias(base).(*types.Named)
 			if !ok || named.Obj().Pkg() == nil || !isRepoPkg(named.Obj().Pkg()) {
@@ -58,6 +61,29 @@ func (P *Prog) fieldWrites() map[string]map[string]ssa.Instruction {
 		})
 	}
 	return out
+}
+
+// isParamCopy: v is the local copy (spill) of a by-value struct parameter other than the receiver.
+func isParamCopy(f *ssa.Function, v ssa.Value) bool {
+	a, ok := v.(*ssa.Alloc)
+	if !ok || a.Referrers() == nil {
+		return false
+	}
+	for _, ref := range *a.Referrers() {
+		st, ok := ref.(*ssa.Store)
+		if !ok || st.Addr != ssa.Value(a) {
+			continue
+		}
+		p, ok := st.Val.(*ssa.Parameter)
+		if !ok {
+			continue
+		}
+		if f.Signature.Recv() != nil && len(f.Params) > 0 && f.Params[0] == p {
+			return false
+		}
+		return true
+	}
+	return false
 }
 
 func dumpFieldWrites(P *Prog) {
